@@ -80,6 +80,11 @@ def clamp(n):          # loop(n, m) = n == 0 ? m : loop(n-1, (m < cap) ? m : cap
     return f"{enc(1000)} {enc(n)} ㄱ {loop} ㅎㄷ ㅎ ㅎㄴ", "0"
 
 
+def vianullary(n):     # f(n) = n == 0 ? 0 : (λ(). f(n-1))(): the back edge is the body of a function called *without arguments*, which
+    # reads the loop variable from the enclosing function (seeded change S05i memoised argument-less calls through a frame)
+    return (f"{enc(n)} (ㄱ (((ㄱㅇㄴ ㄴㄱ ㄷㅎㄷ) ㄴㅇ ㅎㄴ ㅎ) ㅎㄱ) {COND} ㅎㄷ ㅎ) ㅎㄴ", "0")
+
+
 def nontail(n):        # s(n) = n == 0 ? 0 : n + s(n-1)   (frames grow with n)
     return (f"{enc(n)} ㄱ (ㄱㅇㄱ ((ㄱㅇㄱ ㄴㄱ ㄷㅎㄷ) ㄱㅇ ㅎㄴ) ㄷㅎㄷ) {COND} ㅎㄷ ㅎ ㅎㄴ", str(n * (n + 1) // 2))
 
@@ -95,7 +100,7 @@ def nestfmt(n):        # printing a list nested n deep (KNOWN FINDING for large 
 TAIL = {'countdown': countdown, 'accum': accum, 'mutual': mutual, 'viabool': viabool, 'rbind': rbind,
         'viahelper': viahelper, 'viaid': viaid, 'viathunk': viathunk, 'viatry': viatry,
         'boolflag': boolflag, 'nilstate': nilstate, 'carried': carried, 'carried-fn': carried_fn,
-        'toggle': toggle, 'clamp': clamp}
+        'toggle': toggle, 'clamp': clamp, 'vianullary': vianullary}
 
 
 @monitor('c05_value')
